@@ -79,6 +79,23 @@ def run_case(case) -> Outcome:
     if op == "bytes":
         b = case["b"]
         right = len(b) == rc.width(dt) // 8
+        if case.get("mutable") and right:
+            # received data is a bytearray (python-can, Network.notify): decoding must leave it alone
+            # and a second decode of the same buffer must give the same value
+            buf = bytearray(b)
+            try:
+                v1 = var.decode_raw(buf)
+                if bytes(buf) != bytes(b):
+                    bad("decode-changed-input", f"decode_raw(bytearray {bytes(b).hex()}) left the buffer as "
+                                                f"{bytes(buf).hex()}")
+                else:
+                    v2 = var.decode_raw(buf)
+                    if not rc.values_equal(dt, v1, v2) and not (isinstance(v1, float) and v1 != v1):
+                        bad("decode-not-repeatable", f"second decode of {bytes(b).hex()} gave {v2!r}, first {v1!r}")
+            except Exception as e:
+                bad("decode-raises", f"decode_raw(bytearray {bytes(b).hex()}) raised {type(e).__name__}: {e}")
+            if D:
+                return Outcome(True, f"bytes/{name}/bytearray", D)
         try:
             val = var.decode_raw(bytes(b))
         except Exception as e:
@@ -258,6 +275,7 @@ def search(ctx):
                 for fill in (b"\x00", b"\xff", b"\x80", b"\x7f", b"\x01"):
                     yield {"op": "bytes", "dt": dt, "b": fill * n}
                 yield {"op": "bytes", "dt": dt, "b": bytes(range(0x81, 0x81 + n))}
+                yield {"op": "bytes", "dt": dt, "b": bytes(range(0x11, 0x11 + n)), "mutable": True}
         for dt in sorted(rc.REALS):
             for bits in real_patterns(dt):
                 yield {"op": "real", "dt": dt, "bits": bits}
@@ -297,7 +315,8 @@ def search(ctx):
         if kind == "bytes":
             dt = draw(st.sampled_from([rc.BOOLEAN] + sorted(rc.NUMERIC)))
             n = draw(st.one_of(st.just(rc.width(dt) // 8), st.integers(0, 9)))
-            return {"op": "bytes", "dt": dt, "b": draw(st.binary(min_size=n, max_size=n))}
+            return {"op": "bytes", "dt": dt, "b": draw(st.binary(min_size=n, max_size=n)),
+                    "mutable": draw(st.booleans())}
         if kind == "real":
             dt = draw(st.sampled_from(sorted(rc.REALS)))
             return {"op": "real", "dt": dt, "bits": draw(st.integers(0, (1 << rc.REALS[dt]) - 1))}
